@@ -164,6 +164,27 @@ def check_targets(run, tbl, be, label):
                 run.counters["target:colexpr_derived"] += 1
             except Exception as e:  # noqa: BLE001
                 yield Finding("target:colexpr", be, None, f"{label}: expression export raised {type(e).__name__}: {str(e)[:200]}", exc=type(e).__name__)
+    # ColExpr.export of aggregate / window expressions over a *grouped* table (Polars and SQL): the partitioning of the
+    # table applies exactly as in mutate
+    if not tbl._cache.partition_by:
+        try:
+            keys = [c for c in tbl if (c.dtype().is_int() or str(c.dtype()) in ("Bool", "String(None)")) and not types_is_const(c)]
+            if keys and len(list(tbl)) >= 2:
+                gt = tbl >> pdt.group_by(keys[-1])
+                gints = [c for c in gt if c.dtype().is_int() and c.name != keys[-1].name]
+                if gints:
+                    x = gints[0]
+                    exprs = {"sum": x.sum(), "max-x": x.max() - x, "count": x.count() + 0}
+                    for en, e in exprs.items():
+                        s = e.export(pdt.Polars())
+                        exp = (gt >> pdt.mutate(zz__=e) >> pdt.ungroup() >> pdt.export(pdt.Polars())).get_column("zz__")
+                        a, b = _vals(s.to_list()), _vals(exp.to_list())
+                        if (a != b) if be == "pol" else (sorted(map(repr, a)) != sorted(map(repr, b))):
+                            yield Finding("target:colexpr", be, None, f"{label}: grouped {en} of {x.name} by {keys[-1].name}: ColExpr.export {a[:6]} differs from mutate+export {b[:6]}")
+                        run.counters["target:colexpr_grouped"] += 1
+        except Exception as e_:  # noqa: BLE001
+            if type(e_).__name__ not in ("SubqueryError", "NotSupportedError"):
+                yield Finding("target:colexpr", be, None, f"{label}: ColExpr.export over a grouped table raised {type(e_).__name__}: {str(e_)[:200]}", exc=type(e_).__name__)
     # expression over columns of an *ancestor* table and of the current table: the common ancestor must be used
     if be == "pol" and not tbl._cache.partition_by and OLDER:
         try:
@@ -205,6 +226,12 @@ def check_targets(run, tbl, be, label):
         run.counters["target:roundtrip"] += 1
     except Exception as e:  # noqa: BLE001
         yield Finding("target:roundtrip", be, None, f"{label}: round trip raised {type(e).__name__}: {str(e)[:200]}", exc=type(e).__name__)
+
+
+def types_is_const(c):
+    from pydiverse.transform._internal.tree import types
+
+    return types.is_const(c.dtype())
 
 
 def dtype_zoo(run):
